@@ -4,33 +4,35 @@
 For each mutant in tools/mutants.json: copy /repo to a scratch dir under /tmp,
 apply one textual edit, make sure the tree still builds, run the property's
 check against the copy and expect a VIOLATION naming the expected key.  The
-scratch copy is removed afterwards.  Usage: tools/mutate.py [id-substring ...]
+scratch copy is removed afterwards.  Usage: [MUT_JOBS=n] tools/mutate.py [id-substring ...]
 """
-import json, os, shutil, subprocess, sys, tempfile
+import json, os, re, shutil, subprocess, sys, tempfile
+from concurrent.futures import ThreadPoolExecutor
 ROOT = os.path.dirname(os.path.dirname(os.path.abspath(__file__)))
 ENV = dict(os.environ, GOFLAGS='-mod=mod', GOPROXY='off', GOSUMDB='off', GOTOOLCHAIN='local')
 muts = json.load(open(os.path.join(ROOT, 'tools', 'mutants.json'))) + json.load(open(os.path.join(ROOT, 'tools', 'neutral.json')))
 sel = sys.argv[1:]
-fail = 0
-for m in muts:
-    if sel and not any(s in m['id'] for s in sel):
-        continue
+JOBS = int(os.environ.get('MUT_JOBS', '1'))  # scratch copies checked in parallel (each check needs 1-3 GB)
+
+
+def run_one(m):
+    """Checks one mutant; returns (failures, report text)."""
+    out = []
     d = tempfile.mkdtemp(prefix='mut_', dir='/tmp')
     try:
         subprocess.run(['rsync', '-a', '--exclude', '.git', '/repo/', d + '/'], check=True)
         if 'patch' in m:
             r0 = subprocess.run(['patch', '-p1', '-s', '-i', os.path.join(ROOT, m['patch'])], cwd=d, capture_output=True, text=True)
             if r0.returncode != 0:
-                print('MUTANT-STALE', m['id'], 'patch does not apply:', r0.stdout[-200:]); fail += 1; continue
+                return 1, 'MUTANT-STALE %s patch does not apply: %s' % (m['id'], r0.stdout[-200:])
         for e in m.get('edits', []):
             p = os.path.join(d, e['file'])
             s = open(p).read()
             if 'func' in e:
                 # consistent rename of identifiers inside one function (a behaviour-preserving refactor)
-                import re
                 mm = re.search(r'^func [^\n]*\b' + re.escape(e['func']) + r'\(', s, re.M)
                 if not mm:
-                    print('MUTANT-STALE', m['id'], 'function not found', e['func']); fail += 1; break
+                    return 1, 'MUTANT-STALE %s function not found %s' % (m['id'], e['func'])
                 end = s.index('\n}\n', mm.start()) + 3
                 body = s[mm.start():end]
                 for a, b in e['rename'].items():
@@ -38,29 +40,35 @@ for m in muts:
                 open(p, 'w').write(s[:mm.start()] + body + s[end:])
                 continue
             if s.count(e['old']) < 1:
-                print('MUTANT-STALE', m['id'], 'pattern not found in', e['file']); fail += 1; break
+                return 1, 'MUTANT-STALE %s pattern not found in %s' % (m['id'], e['file'])
             s = s.replace(e['old'], e['new'], e.get('count', 1))
             open(p, 'w').write(s)
-        else:
-            b = subprocess.run(['go', 'build', './...'], cwd=d, env=ENV, capture_output=True, text=True)
-            if b.returncode != 0:
-                print('MUTANT-NOBUILD', m['id'], b.stderr[-400:]); fail += 1; continue
-            ev = os.path.join(d, '.evidence')
-            r = subprocess.run([os.path.join(ROOT, 'bin', 'vcheck'), m['property'], '--tier', m.get('tier', 'quick')],
-                               env=dict(ENV, VERIF_REPO=d, VERIF_EVIDENCE_DIR=ev), capture_output=True, text=True)
-            if m.get('neutral'):
-                # behaviour-preserving edit: every check must stay silent
-                quiet = r.returncode == 0 and 'VIOLATION' not in r.stdout
-                print(('QUIET ' if quiet else 'FALSE-ALARM ') + m['id'])
-                if not quiet:
-                    fail += 1
-                    print('\n'.join(l[:400] for l in r.stdout.splitlines() if 'VIOLATED' in l or 'UNDECIDED' in l or 'VIOLATION' in l)[:3000])
-                continue
-            hit = r.returncode == 1 and 'VIOLATION property=' + m['property'] in r.stdout and m['expect'] in r.stdout
-            print(('CAUGHT ' if hit else 'MISSED ') + m['id'])
-            if not hit:
-                fail += 1
-                print(r.stdout[-1500:], r.stderr[-500:])
+        b = subprocess.run(['go', 'build', './...'], cwd=d, env=ENV, capture_output=True, text=True)
+        if b.returncode != 0:
+            return 1, 'MUTANT-NOBUILD %s %s' % (m['id'], b.stderr[-400:])
+        ev = os.path.join(d, '.evidence')
+        r = subprocess.run([os.path.join(ROOT, 'bin', 'vcheck'), m['property'], '--tier', m.get('tier', 'quick')],
+                           env=dict(ENV, VERIF_REPO=d, VERIF_EVIDENCE_DIR=ev), capture_output=True, text=True)
+        if m.get('neutral'):
+            # behaviour-preserving edit: every check must stay silent
+            quiet = r.returncode == 0 and 'VIOLATION' not in r.stdout
+            out.append(('QUIET ' if quiet else 'FALSE-ALARM ') + m['id'])
+            if not quiet:
+                out.append('\n'.join(l[:400] for l in r.stdout.splitlines() if 'VIOLATED' in l or 'UNDECIDED' in l or 'VIOLATION' in l)[:3000])
+            return (0 if quiet else 1), '\n'.join(out)
+        hit = r.returncode == 1 and 'VIOLATION property=' + m['property'] in r.stdout and m['expect'] in r.stdout
+        out.append(('CAUGHT ' if hit else 'MISSED ') + m['id'])
+        if not hit:
+            out.append(r.stdout[-1500:] + ' ' + r.stderr[-500:])
+        return (0 if hit else 1), '\n'.join(out)
     finally:
         shutil.rmtree(d, ignore_errors=True)
-sys.exit(1 if fail else 0)
+
+
+todo = [m for m in muts if not sel or any(s in m['id'] for s in sel)]
+total = 0
+with ThreadPoolExecutor(max_workers=JOBS) as ex:
+    for f, text in ex.map(run_one, todo):
+        total += f
+        print(text, flush=True)
+sys.exit(1 if total else 0)
